@@ -1,7 +1,8 @@
 // run harness: evaluate a program on a fresh engine and report tree, stdout, result.
-//   input : <opt|raw> <hex program> [repeat=<k>] [nohints] [shape]
+//   input : <opt|raw> <hex program> [repeat=<k>] [nohints] [shape] [fault=<n>:<runtime_error|out_of_range|boxed|eval_error|foreign>]
 //   output: TREE <dump> || OUT <hex stdout> || RES <value>     or … || ERR(<class>) <hex reason> [<call stack>]
 #include "astdump.hpp"
+#include <algorithm>
 #include <fcntl.h>
 #include <sys/mman.h>
 #include <unistd.h>
@@ -47,6 +48,20 @@ namespace {
   }
 }
 
+// harness callback `cb(x)`: returns x, or throws the configured exception on its n-th invocation
+static int g_cb_count = 0, g_cb_fault_at = 0;
+static std::string g_cb_kind;
+static int cb(int x) {
+  if (++g_cb_count == g_cb_fault_at) {
+    if (g_cb_kind == "runtime_error") throw std::runtime_error("injected");
+    if (g_cb_kind == "out_of_range") throw std::out_of_range("injected");
+    if (g_cb_kind == "boxed") throw chaiscript::Boxed_Value(77);
+    if (g_cb_kind == "eval_error") throw chaiscript::exception::eval_error("injected");
+    if (g_cb_kind == "foreign") throw 42;
+  }
+  return x;
+}
+
 int main() {
   int cap = memfd_create("out", 0);
   auto fn = [&](const std::string &line) -> std::string {
@@ -60,9 +75,18 @@ int main() {
       if (f[i].rfind("repeat=", 0) == 0) repeat = std::stoi(f[i].substr(7));
       if (f[i] == "nohints") nohints = true;
       if (f[i] == "shape") shape = true;
+      if (f[i].rfind("fault=", 0) == 0) {
+        const auto spec = f[i].substr(6);
+        const auto colon = spec.find(':');
+        g_cb_fault_at = std::stoi(spec.substr(0, colon));
+        g_cb_kind = spec.substr(colon + 1);
+      }
     }
+    g_cb_count = 0;
+    if (std::none_of(f.begin(), f.end(), [](const std::string &x) { return x.rfind("fault=", 0) == 0; })) g_cb_fault_at = 0;
     chaiscript::detail::Dispatch_Engine::verif_ignore_hints().store(nohints);
     auto chai = vf::make_engine(opt);
+    chai->add(chaiscript::fun(&cb), "cb");
     auto show_shape = [&]() {
       auto a = chai->verif_stack_shape();
       std::string r;
@@ -124,7 +148,7 @@ int main() {
       try { probe = std::to_string(chai->eval<int>("var verif_probe_a = 20; { var verif_probe_a = 1 }; verif_probe_a + 1")); } catch (...) { probe = "ERR"; }
       std::string locals;
       for (const auto &kv : chai->get_locals()) locals += kv.first + ",";
-      tail += " PROBE " + probe + " LOCALS " + locals;
+      tail += " PROBE " + probe + " LOCALS " + locals + " CBCOUNT " + std::to_string(g_cb_count);
     }
     return res + " || OUT " + vf::hex(out) + " || " + outcome + tail;
   };
